@@ -9,7 +9,9 @@ all hard deps to DONE, and its clock facts admit only (max end over ALL deps)
 <= (task start), or an absent clock; REL-1 - a task is (re-)queued only when
 all deps are final and hard deps DONE; REL-5 - a task that entered DONE is
 re-queued on clock grounds only on the `gt` ordering, and keep rows perform no
-write on the environment; PUB - clocks and payload are published before (or
+write on the environment; REL-4 - the status returned by a row is the status
+it stores (a DONE task held back as WAITING does not stay DONE in the
+environment, where a later pass would keep it on clocks alone); PUB - clocks and payload are published before (or
 atomically with) the DONE status so REL-2 never compares a stale end clock;
 MERGE-DONE - entries read from disk enter the environment only through a
 store guarded by status == DONE; TOPO - the master examines the tasks in a
@@ -26,6 +28,9 @@ computed from the environment (no status / clock read hoisted out of it).
 WRITE-ALL - write_env rewrites the entry of every task that has an output
 directory: no skip decided on statuses, clocks or file times (a restored DONE
 task the master turns SKIPPED gets no new clock).
+STATUS-WRITERS - in the backends a task status is written only by the
+decision function (REL rows), by the master loop in front of it (REL prelude
+rows) and by the worker around Task.do (WRK): no other transition exists.
 Not decided: sequences of runs beyond these per-run obligations; clock
 monotonicity (time.time() is trusted).
 '''
@@ -34,7 +39,7 @@ ASSUMPTIONS = ['time.time() is non-decreasing across the runs compared',
 
 
 def check(ctx):
-    ctx.run(sched_rel.check_rel, {'REL-1', 'REL-2', 'REL-5'})
+    ctx.run(sched_rel.check_rel, {'REL-1', 'REL-2', 'REL-4', 'REL-5'})
     ctx.run(sched_worker.check_pub)
     ctx.run(persist.check_merge_done)
     ctx.run(persist.check_write_all)
@@ -43,6 +48,7 @@ def check(ctx):
     ctx.run(sched_rel.check_graph_whole)
     ctx.run(sched_rel.check_graph_rebound)
     ctx.run(sched_rel.check_decision_inputs)
+    ctx.run(sched_rel.check_status_writers)
     ctx.run(patterns.check_patterns, ID)
 
 
